@@ -28,7 +28,12 @@ EXPLANATION = (
     "(DeepPerc0 -> DeepPerc, Runoff0 -> RunoffTot). C01.d column agreement (T-COLS). C01.e: the two linear conservation "
     "templates of infiltration's surface block (water to store + ponding + initial runoff = arriving water + previous "
     "ponding; ponding + runoff unchanged by the bund re-routing block) hold on every path. drainage and infiltration's "
-    "internal redistribution loops are not under C01.b (several interacting accumulators; no exact pairing rule).")
+    "internal redistribution loops are not under C01.b (several interacting accumulators; no exact pairing rule). "
+    "C01.f thickness agreement: at every site where a water depth and a water content are converted into each other "
+    "with a single compartment's thickness (1000*dz[k], directly or through a local alias whose index has not been "
+    "redefined since), the compartment-indexed elements of the same statement use the index k - backed-up or "
+    "redistributed water is stored with the thickness of the compartment that receives it (this rule does cover the "
+    "drainage and infiltration loops).")
 
 TH_PATH = re.compile(r"^STATE\.th(\[\])?$")
 
@@ -471,3 +476,7 @@ def run(chk, prog, tier):
         if v["rule"] == "C02.c":
             v["rule"] = "C01.e"
     chk.assume("A-10")
+    # C01.f: thickness agreement of every depth <-> content conversion (covers drainage / infiltration redistribution loops too)
+    from . import _thick
+    n = _thick.scan(chk, prog, "C01.f", prog.reachable_from(STEP_FN))
+    chk.floor("C01.f", n, 45, "depth <-> water-content conversion sites with a single-compartment thickness")
